@@ -382,14 +382,17 @@ func c06Run1(c c06Case) (v vVerdict) {
 				if after.Active {
 					return vFailf("stop-not-reported", "op %d: STOP succeeded but the reported state is still active", i)
 				}
-				if cur != nil && !cur.stopped {
-					cur.stopped = true
-					if f := finish(cur, fmt.Sprintf("after STOP (op %d)", i)); f != nil {
-						return *f
+				// every run not yet checked (normally one; more if a START was accepted while another run was in force)
+				for _, r := range runs {
+					if !r.stopped {
+						r.stopped = true
+						if f := finish(r, fmt.Sprintf("after STOP (op %d)", i)); f != nil {
+							return *f
+						}
 					}
-					if open := openInDir(cur.dir); len(open) > 0 {
-						return vFailf("files-open-after-stop", "op %d: after STOP these files are still open: %v", i, open)
-					}
+				}
+				if open := openInDir(root); len(open) > 0 {
+					return vFailf("files-open-after-stop", "op %d: after STOP these files are still open: %v", i, open)
 				}
 			case strings.HasPrefix(up, "PAUSE"):
 				pauses++
@@ -401,10 +404,15 @@ func c06Run1(c c06Case) (v vVerdict) {
 		if err := ds.WriteControl(&WriteControlConfig{Request: "STOP"}); err != nil {
 			return vFailf("final-stop-error", "final STOP: %v", err)
 		}
-		if f := finish(cur, "after the final STOP"); f != nil {
-			return *f
+		for _, r := range runs {
+			if !r.stopped {
+				r.stopped = true
+				if f := finish(r, "after the final STOP"); f != nil {
+					return *f
+				}
+			}
 		}
-		if open := openInDir(cur.dir); len(open) > 0 {
+		if open := openInDir(root); len(open) > 0 {
 			return vFailf("files-open-after-stop", "after the final STOP these files are still open: %v", open)
 		}
 	}
